@@ -24,6 +24,8 @@ func init() {
 }
 
 func runC14(p *Prog, r *Report) {
+	// R8: a bucket owns its numbers: what one source's update changes is that source's bucket only (shared with C03.R3 / C03.R9)
+	r.Borrow(p, runC03, map[string]string{"C03.R3": "C14.R8", "C03.R9": "C14.R8"}, nil)
 	// R7: what a source is limited by depends on its own requests only: its buckets are updated from the rates of its own request on every hit (shared with C03.R2)
 	r.Borrow(p, runC03, map[string]string{"C03.R2": "C14.R7"}, func(o Ob) bool { return strings.Contains(o.Construct, "follow the request's rates") })
 	c14Keys(p, r)
@@ -434,6 +436,19 @@ func c14Eviction(p *Prog, r *Report) {
 				}
 			}
 		}
+		// room is made BEFORE the newcomer is stored: an eviction after the insertion lets the new entry compete — a
+		// source whose lifetime is the shortest evicts itself on every request and is never limited
+		afterInsert := false
+		for _, blk := range set.Blocks {
+			for _, in := range blk.Instrs {
+				if mu, ok := in.(*ssa.MapUpdate); ok && isFieldLoad(mu.Map, tm, ttlElements(tm)) && Reach(set, in, nil, nil)[call] {
+					afterInsert = true
+				}
+			}
+		}
+		r.Paths++
+		r.Check(!afterInsert, "C14.R3", fmt.Sprintf("collections.TTLMap.%s: space is freed before the new entry is stored (site %d)", set.Name(), nSites), p.InstrPos(call), "the eviction is not reachable from the insertion",
+			"entries are evicted after the new entry was stored: the newcomer takes part in the choice of the victim, so a source with the shortest lifetime arriving at a full table removes itself and is never tracked")
 		r.Paths += 2
 		r.Check(okNew, "C14.R3", fmt.Sprintf("collections.TTLMap.%s: space is freed only when a NEW key is inserted (site %d)", set.Name(), nSites), p.InstrPos(call), "eviction is reachable only on the key-not-present edge", "renewing an existing key can evict another source's live entry (eviction is reachable on the key-present path): with sources == capacity every request of one source makes another start afresh")
 		r.Check(okCap, "C14.R3", fmt.Sprintf("collections.TTLMap.%s: space is freed only at capacity (site %d)", set.Name(), nSites), p.InstrPos(call), "on the len(elements) >= capacity edge", "entries are evicted although the map is below capacity")
@@ -551,6 +566,7 @@ func c14Eviction(p *Prog, r *Report) {
 func mutantsC14() []Mutant {
 	tm, pq := "internal/holsterv4/collections/ttlmap.go", "internal/holsterv4/collections/priority_queue.go"
 	return []Mutant{
+		{Name: "evict-after-insert", File: "internal/holsterv4/collections/ttlmap.go", Old: "\tm.expiryTimes.Push(heapEl)\n\treturn nil\n", New: "\tm.expiryTimes.Push(heapEl)\n\tif len(m.elements) > m.capacity {\n\t\tm.freeSpace(1)\n\t}\n\treturn nil\n", Expect: "C14.R3"},
 		{Name: "update-only-when-rates-differ-from-default", File: "ratelimit/tokenlimiter.go", Old: "\t\tbucketSet.Update(effectiveRates)\n", New: "\t\tif effectiveRates != tl.defaultRates {\n\t\t\tbucketSet.Update(effectiveRates)\n\t\t}\n", Expect: "C14.R7"},
 		{Name: "acquire-tests-total", File: "connlimit/connlimit.go", Old: "\tif connections >= cl.maxConnections {", New: "\tif connections >= cl.maxConnections || cl.totalConnections >= 4*cl.maxConnections {", Expect: "C14.R2"},
 		{Name: "freespace-two", File: tm, Old: "\t\tm.freeSpace(1)\n", New: "\t\tm.freeSpace(2)\n", Expect: "C14.R3"},
